@@ -96,3 +96,18 @@ Theorem C09_bb_binary64_ordered : forall p mu b xs M, bb_new FOps p mu = Ok b ->
   Forall (fun o => exists a up lo, o = [a; up; lo] /\ finF a /\ finF up /\ finF lo /\ (FR lo <= FR a <= FR up)%R)
          (Wiring.bb_outs FOps b xs).
 Proof. exact bb_float_ordered. Qed.
+(* AverageTrueRange and KeltnerChannel (scalar path) on binary64, streams of ANY length: the ATR is a finite float >= 0, and every
+   KeltnerChannel band is finite with lower <= average <= upper exactly *)
+From TA Require Import Proofs.FloatKc.
+Theorem C09_atr_binary64_nonneg : forall p a xs M, atr_new FOps p = Ok a -> (p < 35184372088832)%N ->
+  (1 <= M)%R -> (8 * M <= bpow radix2 990)%R -> Forall (okin M) xs ->
+  length (Wiring.atr_outs FOps a xs) = length xs /\
+  Forall (fun o => finF o /\ (0 <= FR o <= 6 * M)%R) (Wiring.atr_outs FOps a xs).
+Proof. exact atr_float_nonneg. Qed.
+Theorem C09_kc_binary64_ordered : forall p mu k xs M, kc_new FOps p mu = Ok k -> (p < 35184372088832)%N ->
+  finF mu -> (0 <= FR mu <= bpow radix2 400)%R ->
+  (1 <= M)%R -> (M <= bpow radix2 400)%R -> Forall (okin M) xs ->
+  length (Wiring.kc_outs FOps k xs) = length xs /\
+  Forall (fun o => exists a up lo, o = [a; up; lo] /\ finF a /\ finF up /\ finF lo /\ (FR lo <= FR a <= FR up)%R)
+         (Wiring.kc_outs FOps k xs).
+Proof. exact kc_float_ordered. Qed.
